@@ -158,6 +158,69 @@ class Sim02(scenario.Sim):
         super().__init__(sc)
         self.obs = Observer02(self)
         self.registry = scenario.build_registry(sc, self.obs)
+        # `"rv": {"start": n, "strides": [...], "jumps": [{"nth": k}, …]}` — how the server numbers its versions (to a client a
+        # resourceVersion is an opaque string; the fake server's own 101, 102, … keeps one decimal width for a whole history).
+        # Same plan language as C07's (`Sim07._install_rv_plan`, copied: nothing in harness/sim or in C07's files is changed).
+        self.rv_plan = dict(sc.get("rv") or {})
+        self.rv_jumps = [dict(j) for j in self.rv_plan.get("jumps", [])]
+        self.own_patches = 0
+        self.cluster.before_request.append(self._tag_cycle)
+        if self.rv_plan:
+            self._install_rv_plan()
+            if self.rv_jumps:
+                self.cluster.before_request.append(self._rv_jump)      # (after `_slip`: a slipped-in foreign write comes first)
+
+    def _install_rv_plan(self) -> None:
+        cl = self.cluster
+        start = self.rv_plan.get("start")
+        if start is not None:
+            base = 100                     # fakeapi.Cluster: `self.rv = 100` before anything is stored
+            shift = int(start) - base
+
+            def re_based(body: dict) -> None:
+                body["metadata"]["resourceVersion"] = str(int(body["metadata"]["resourceVersion"]) + shift)
+
+            if int(start) < 1 or cl.horizon and any(cl.horizon.values()):
+                raise ValueError("rv plan: the counter starts at 1 or above, before any compaction")
+            for body in cl.objects.values():
+                re_based(body)
+            for k, entries in cl.log.items():
+                cl.log[k] = [(rv + shift, et, snap) for rv, et, snap in entries]
+                for _, _, snap in cl.log[k]:
+                    re_based(snap)
+            for versions in cl.history.values():
+                for v in versions:
+                    re_based(v["body"])
+            cl.rv += shift
+        strides = [int(g) for g in self.rv_plan.get("strides", [1])] or [1]
+        if any(g < 1 for g in strides):
+            raise ValueError("rv plan: strides are >= 1")
+        orig_next = cl._next_rv
+        n = [0]
+
+        def next_rv() -> int:
+            cl.rv += strides[n[0] % len(strides)] - 1
+            n[0] += 1
+            return orig_next()
+
+        cl._next_rv = next_rv  # type: ignore[method-assign]
+
+    def _tag_cycle(self, req: dict) -> None:
+        """Which handling pass (`process_resource_event` call) a request of the operator was made in — None: none."""
+        rec = observe._cycle.get()
+        req["cycle"] = rec["i"] if rec is not None else None
+
+    def _rv_jump(self, req: dict) -> None:
+        """Right before the n-th PATCH of the operator on the object the counter leaps to the end of its decimal width: the
+        operator's own write gets the first version that is one digit longer than the versions stored just before it."""
+        if req.get("method") == "PATCH" and "/kopfexamples/" in req.get("path", ""):
+            self.own_patches += 1
+            for j in self.rv_jumps:
+                if j.get("nth") == self.own_patches and not j.get("done"):
+                    j["done"] = True
+                    cl = self.cluster
+                    cl.rv = max(cl.rv, 10 ** len(str(cl.rv)) - 1)
+                    self.mark("rv-jump", rv=cl.rv)
 
     def settings(self) -> Any:
         s = super().settings()
